@@ -147,6 +147,64 @@ def _same_uid_ws(run, k, idx, path, lineno):
     return at_k[0][0] == l[0] and before[0][1] == l[1] and "".join(before[0][0].split()) == "".join(l[0].split())
 
 
+TOKEN_PAIR_SIG = "token-pairing-with-deleted-line-of-same-hunk"
+
+
+def _lead(t):
+    import re
+    m = re.match(r"\s*(\w+)", t)
+    return m.group(1) if m else None
+
+
+def token_pairing_in_interval(sc, path, text, session):
+    """known finding token-pairing-with-deleted-line-of-same-hunk (checkpoint path, invention direction): between two
+    checkpoints of `path` a person (a) deleted a line of `session` that sat directly above or below a line L, and
+    (b) changed L in whitespace only so that it reads `text` (the credited line); the deleted line starts with the same
+    word token as L. The token-level diff of that interval pairs the deleted line's leading token with L."""
+    nt = lambda t: "".join(t.split())
+    start = None      # content of path at the last checkpoint that saw it
+    last = None
+    for st in sc["steps"]:
+        if st["op"] == "edit" and st.get("path") == path:
+            if st["who"] == "human":
+                if start is None:
+                    start = last
+                if start:
+                    uids_now = {l[2] for l in st["lines"]}
+                    for b in st["lines"]:
+                        if b[0] != text:
+                            continue
+                        for k, a in enumerate(start):
+                            if a[2] == b[2] and a[0] != b[0] and nt(a[0]) == nt(b[0]):
+                                for n in (start[k - 1] if k > 0 else None, start[k + 1] if k + 1 < len(start) else None):
+                                    if n and n[1] == session and n[2] not in uids_now and _lead(n[0]) == _lead(text):
+                                        return True
+            else:
+                start = None
+            last = st["lines"]
+        elif st["op"] == "human_checkpoint" and path in (st.get("paths") or []):
+            start = None
+        elif st["op"] == "commit":
+            start = None
+    return False
+
+
+def classify_token_pairing(sc, run, failures):
+    """re-label `note-lists-non-ai-line` / `blame-reports-non-ai-line` failures all of whose extra lines are explained by
+    token_pairing_in_interval"""
+    h2s = {S.hash_of(s_): s_ for s_ in ("s1", "s2", "s3", "s4")}
+    for n, (sig, d) in enumerate(failures):
+        if sig not in ("note-lists-non-ai-line", "blame-reports-non-ai-line") or not d.get("extra") or d.get("missing"):
+            continue
+        files = next((f for sha, f in run.commits if sha == d.get("sha")), None)
+        if not files or d["path"] not in files:
+            continue
+        lines = files[d["path"]]
+        if all(0 < ln <= len(lines) and h in h2s and lines[ln - 1][1] != h2s[h] and
+               token_pairing_in_interval(sc, d["path"], lines[ln - 1][0], h2s[h]) for ln, h in d["extra"].items()):
+            failures[n] = (TOKEN_PAIR_SIG, d)
+
+
 def check_commit(run, idx, failures):
     """Oracles for commit number idx of the runner (idx ≥ 1: not the base commit)."""
     sha, files = run.commits[idx]
@@ -216,12 +274,13 @@ def _run_scenario(sc):
                 run.step(st)
             for i in range(1, len(run.commits)):
                 check_commit(run, i, failures)
+            classify_token_pairing(sc, run, failures)
             ncommits = len(run.commits)
             observed = [S.observed_note_lines(run.repo.note(sha)) for sha, _ in run.commits[1:]]
             sc["_observed"] = observed
             sc["_commit_ok"] = list(run.commit_ok)
             sc["_idealised"] = sorted({d.get("path") for sig, d in failures
-                                       if sig == "uncommitted-ai-line-reindented-next-to-a-change-in-the-same-interval"})
+                                       if sig in ("uncommitted-ai-line-reindented-next-to-a-change-in-the-same-interval", TOKEN_PAIR_SIG)})
     except Exception as ex:
         failures.append(("runner-exception", {"error": repr(ex), "trace": traceback.format_exc()[-1500:]}))
         ncommits = 0
